@@ -18,10 +18,12 @@ USES = [('{} r', 'head'), ('vh-argv a | {} r', 'after-pipe'), ('vh-mark 1 0 ; {}
         # arguments that are themselves alias names (after an aliased and after a plain command word)
         ('{} n m.x-1', 'head-with-alias-named-arguments'), ('vh-argv a | {} m.x-1 n', 'after-pipe-with-alias-named-arguments'),
         ('vh-mark 1 1 || {} r', 'after-or'), ('vh-mark 1 0 ;{} r', 'after-semicolon-tight'), ('{} r > f1', 'head-with-redirection'),
-        ('{} r 2>&1 | vh-argv2 z', 'head-of-pipeline-with-redirection')]
+        ('{} r 2>&1 | vh-argv2 z', 'head-of-pipeline-with-redirection'),
+        # the same alias as the command word of two stages of one pipeline: "once" is per command word, not per line
+        ('{} r | {} s', 'two-stages-same-alias')]
 
 
-EXTRA_USES = ('after-or', 'after-semicolon-tight', 'head-with-redirection', 'head-of-pipeline-with-redirection')
+EXTRA_USES = ('after-or', 'after-semicolon-tight', 'head-with-redirection', 'head-of-pipeline-with-redirection', 'two-stages-same-alias')
 
 
 def define(name, value, q):
@@ -76,7 +78,7 @@ def run_transition(job):
             for tmpl, pos in USES:
                 if pos in EXTRA_USES and name != NAMES[0] and os.environ.get('VERIF_TIER_C17') != 'thorough':
                     continue       # quick: the additional use forms with the first name only
-                use = tmpl.format(name)
+                use = tmpl.replace('{}', name)
                 line = ' ; '.join(texts + [use, 'vh-mark S 0 $?'])
                 try:
                     os.unlink(os.path.join(d, 'vh.log'))
@@ -87,7 +89,7 @@ def run_transition(job):
                 if pos == 'non-first-word' or value is None:
                     ref_line = use
                 else:
-                    ref_line = tmpl.replace('{}', value, 1) if tmpl.count('{}') == 1 else tmpl.format(value)
+                    ref_line = tmpl.replace('{}', value)
                 results[(name, pos)] = (recs_of(r), r.timed_out, reference_use(ref_line), use, ref_line)
         # listing, single listing, round trip
         try:
@@ -207,6 +209,6 @@ def run(rep, tier):
             break
     rep.states = len(seen)
     rep.extra['fixpoint_reached'] = not frontier
-    rep.sample({'history': [op_text(o) for o in list(seen.values())[-1]], 'uses': [u[0].format('n') for u in USES]})
+    rep.sample({'history': [op_text(o) for o in list(seen.values())[-1]], 'uses': [u[0].replace('{}', 'n') for u in USES]})
     if rep.states < 40:
         rep.machinery.append('vacuity guard: fewer than 40 alias-table states reached')
